@@ -92,6 +92,9 @@ func SingleBucket(name string, fs afero.Fs, metaFs afero.Fs, opts ...SingleOptio
 		}
 	}
 
+	// Directories that an interrupted run left empty:
+	pruneEmptyDirs(fs, "", func(path string) bool { return path == singleUploadsDir })
+
 	return b, nil
 }
 
